@@ -646,3 +646,7 @@ _add(
     "C13",
     m("wrapper-skips-callback-when-chain-settled", "redun/promise.py", "            def wrapper(result_or_error):\n                try:", "            def wrapper(result_or_error):\n                if not promise.is_pending:\n                    return\n                try:", "C13.4"),
 )
+_add(
+    "C33",
+    m("limit-uses-unbuilt-jobs", "redun/backends/db/query.py", "            jobs=built._jobs.limit(size),", "            jobs=self._jobs.limit(size),", "C33.6"),
+)
